@@ -270,9 +270,9 @@ theorem originBytes_originStream (p : Bytes) (h : p.length < 10 ^ 9) :
 
 def printable (p : Bytes) : Prop := ∀ c ∈ p, isBase c = true
 
-theorem walkChars_ok (L ij : Nat) (f k : Nat) (g rest : Bytes) (hk : k + f = 10)
+theorem walkChars_ok (oob : Err) (L ij : Nat) (f k : Nat) (g rest : Bytes) (hk : k + f = 10)
     (hg : g.length = min f (L - (ij + k))) (hb : printable g) :
-    walkChars (L : Int) ij f k (g ++ rest) = .ok rest := by
+    walkChars oob (L : Int) ij f k (g ++ rest) = .ok rest := by
   induction f generalizing k g with
   | zero =>
     have : g = [] := List.eq_nil_of_length_eq_zero (by omega)
@@ -292,9 +292,9 @@ theorem walkChars_ok (L ij : Nat) (f k : Nat) (g rest : Bytes) (hk : k + f = 10)
       have : g = [] := List.eq_nil_of_length_eq_zero (by omega)
       subst this; rfl
 
-theorem walkGroups_fmt (L i : Nat) (f j : Nat) (r rest : Bytes) (hj : j + 10 * f = 60)
+theorem walkGroups_fmt (oob : Err) (L i : Nat) (f j : Nat) (r rest : Bytes) (hj : j + 10 * f = 60)
     (hr : r.length = L - (i + j)) (hb : printable r) :
-    walkGroups (L : Int) i f j (fmtGroupsS f j r ++ rest) = .ok rest := by
+    walkGroups oob (L : Int) i f j (fmtGroupsS f j r ++ rest) = .ok rest := by
   induction f generalizing j r with
   | zero => rfl
   | succ f ih =>
@@ -306,7 +306,7 @@ theorem walkGroups_fmt (L i : Nat) (f j : Nat) (r rest : Bytes) (hj : j + 10 * f
     · have hpos : 0 < r.length := List.length_pos_iff.mpr hq
       rw [if_pos (by omega), fmtGroupsS, if_pos ⟨by omega, hq⟩]
       simp only [List.cons_append, List.append_assoc, bne_self_eq_false, Bool.false_eq_true, if_false]
-      rw [walkChars_ok L (i + j) 10 0 (r.take 10) _ (by omega) (by simp only [List.length_take]; omega)
+      rw [walkChars_ok oob L (i + j) 10 0 (r.take 10) _ (by omega) (by simp only [List.length_take]; omega)
         (fun x hx => hb x (List.mem_of_mem_take hx))]
       exact ih (j + 10) (r.drop 10) (by omega) (by simp only [List.length_drop]; omega)
         (fun x hx => hb x (List.mem_of_mem_drop hx))
@@ -316,11 +316,11 @@ theorem isPrefixOf_append (a b : Bytes) : a.isPrefixOf (a ++ b) = true := by
   | nil => simp [List.isPrefixOf]
   | cons x a ih => simp [ih]
 
-theorem walkLine_fmt (L i : Nat) (r rest : Bytes) (hr : r.length = L - i) (hb : printable r) :
-    walkLine (L : Int) i (index9 (i + 1) ++ (fmtGroupsS 6 0 r ++ rest)) = .ok rest := by
+theorem walkLine_fmt (oob : Err) (L i : Nat) (r rest : Bytes) (hr : r.length = L - i) (hb : printable r) :
+    walkLine oob (L : Int) i (index9 (i + 1) ++ (fmtGroupsS 6 0 r ++ rest)) = .ok rest := by
   unfold walkLine
   simp only [isPrefixOf_append, if_true, List.drop_left]
-  exact walkGroups_fmt L i 6 0 r rest (by omega) (by omega) hb
+  exact walkGroups_fmt oob L i 6 0 r rest (by omega) (by omega) hb
 
 theorem validateLines_fmt (L : Nat) (f f' i : Nat) (r : Bytes) (hr : r.length = L - i)
     (hf : r.length ≤ 60 * f) (hf' : r.length ≤ 60 * f') (hb : printable r) :
@@ -338,7 +338,7 @@ theorem validateLines_fmt (L : Nat) (f f' i : Nat) (r : Bytes) (hr : r.length = 
       cases f' with
       | zero => omega
       | succ f' =>
-        rw [fmtLinesS, if_pos hq, walkLine_fmt L i r _ hr hb]
+        rw [fmtLinesS, if_pos hq, walkLine_fmt .panic L i r _ hr hb]
         simp only [bne_self_eq_false, Bool.false_eq_true, if_false]
         exact ih f' (i + 60) (r.drop 60) (by simp only [List.length_drop]; omega)
           (by simp only [List.length_drop]; omega) (by simp only [List.length_drop]; omega)
@@ -384,14 +384,14 @@ theorem index9_noEOL (n : Nat) : noEOL (index9 n) := by
   · intro c hc; rw [List.mem_replicate] at hc; rw [hc.2]; decide
   · exact digitsAux_noEOL _ _
 
-theorem walkChars_split (L ij f k : Nat) (rest r : Bytes) (hk : k + f = 10)
-    (h : walkChars (L : Int) ij f k rest = .ok r) :
+theorem walkChars_split (oob : Err) (L ij f k : Nat) (rest r : Bytes) (hk : k + f = 10)
+    (h : walkChars oob (L : Int) ij f k rest = .ok r) :
     ∃ g, rest = g ++ r ∧ noEOL g ∧ g.length = min f (L - (ij + k)) ∧
-      ∀ r', walkChars (L : Int) ij f k (g ++ r') = .ok r' := by
+      ∀ oob' r', walkChars oob' (L : Int) ij f k (g ++ r') = .ok r' := by
   induction f generalizing k rest with
   | zero =>
     simp only [walkChars] at h; cases h
-    exact ⟨[], rfl, noEOL_nil, by simp, fun _ => rfl⟩
+    exact ⟨[], rfl, noEOL_nil, by simp, fun _ _ => rfl⟩
   | succ f ih =>
     unfold walkChars at h
     by_cases hc : k < 10 ∧ ((ij + k : Nat) : Int) < (L : Int)
@@ -404,24 +404,24 @@ theorem walkChars_split (L ij f k : Nat) (rest r : Bytes) (hk : k + f = 10)
         · rw [if_pos hb] at h
           obtain ⟨g, e, hn, hl, hloc⟩ := ih (k + 1) t (by omega) h
           refine ⟨c :: g, by rw [e]; rfl, noEOL_cons (isBase_noEOL hb) hn,
-            by simp only [List.length_cons]; omega, fun r' => ?_⟩
+            by simp only [List.length_cons]; omega, fun oob' r' => ?_⟩
           unfold walkChars
           rw [if_pos hc]
           simp only [List.cons_append]
-          rw [if_pos hb]; exact hloc r'
+          rw [if_pos hb]; exact hloc oob' r'
         · rw [if_neg hb] at h; cases h
     · rw [if_neg hc] at h; cases h
-      refine ⟨[], rfl, noEOL_nil, by simp only [List.length_nil]; omega, fun r' => ?_⟩
+      refine ⟨[], rfl, noEOL_nil, by simp only [List.length_nil]; omega, fun oob' r' => ?_⟩
       unfold walkChars; rw [if_neg hc]; rfl
 
-theorem walkGroups_split (L i f j : Nat) (rest r : Bytes) (hj : j + 10 * f = 60)
-    (h : walkGroups (L : Int) i f j rest = .ok r) :
+theorem walkGroups_split (oob : Err) (L i f j : Nat) (rest r : Bytes) (hj : j + 10 * f = 60)
+    (h : walkGroups oob (L : Int) i f j rest = .ok r) :
     ∃ gs, rest = gs ++ r ∧ noEOL gs ∧ gs.length = gl (min (L - (i + j)) (10 * f)) ∧
-      ∀ r', walkGroups (L : Int) i f j (gs ++ r') = .ok r' := by
+      ∀ oob' r', walkGroups oob' (L : Int) i f j (gs ++ r') = .ok r' := by
   induction f generalizing j rest with
   | zero =>
     simp only [walkGroups] at h; cases h
-    exact ⟨[], rfl, noEOL_nil, by simp [gl], fun _ => rfl⟩
+    exact ⟨[], rfl, noEOL_nil, by simp [gl], fun _ _ => rfl⟩
   | succ f ih =>
     unfold walkGroups at h
     by_cases hc : j < 60 ∧ ((i + j : Nat) : Int) < (L : Int)
@@ -434,22 +434,22 @@ theorem walkGroups_split (L i f j : Nat) (rest r : Bytes) (hj : j + 10 * f = 60)
         · rw [if_pos hs] at h; cases h
         · rw [if_neg hs] at h
           have hc32 : c = 32 := by simpa using hs
-          generalize hw : walkChars (L : Int) (i + j) 10 0 t = w at h
+          generalize hw : walkChars oob (L : Int) (i + j) 10 0 t = w at h
           match w, hw, h with
           | .error e, _, h => cases h
           | .ok t', hw, h =>
             simp only at h
-            obtain ⟨g, e1, hn1, hl1, hloc1⟩ := walkChars_split L (i + j) 10 0 t t' (by omega) hw
+            obtain ⟨g, e1, hn1, hl1, hloc1⟩ := walkChars_split oob L (i + j) 10 0 t t' (by omega) hw
             obtain ⟨gs, e2, hn2, hl2, hloc2⟩ := ih (j + 10) t' (by omega) h
-            refine ⟨c :: (g ++ gs), by rw [e1, e2]; simp, ?_, ?_, fun r' => ?_⟩
+            refine ⟨c :: (g ++ gs), by rw [e1, e2]; simp, ?_, ?_, fun oob' r' => ?_⟩
             · exact noEOL_cons (by rw [hc32]; decide) (noEOL_append hn1 hn2)
             · simp only [List.length_cons, List.length_append, hl1, hl2, gl]; omega
             · unfold walkGroups
               rw [if_pos hc]
               simp only [List.cons_append, List.append_assoc]
-              rw [if_neg hs, hloc1]; exact hloc2 r'
+              rw [if_neg hs, hloc1 oob']; exact hloc2 oob' r'
     · rw [if_neg hc] at h; cases h
-      refine ⟨[], rfl, noEOL_nil, ?_, fun r' => ?_⟩
+      refine ⟨[], rfl, noEOL_nil, ?_, fun oob' r' => ?_⟩
       · simp only [List.length_nil, gl]; omega
       · unfold walkGroups; rw [if_neg hc]; rfl
 
@@ -463,21 +463,21 @@ theorem isPrefixOf_split {a b : Bytes} (h : a.isPrefixOf b = true) : b = a ++ b.
       simp only [List.isPrefixOf, Bool.and_eq_true, beq_iff_eq] at h
       rw [h.1, List.length_cons, List.drop_succ_cons, List.cons_append, ← ih h.2]
 
-theorem walkLine_split (L i : Nat) (rest r : Bytes) (hi : i + 1 < 10 ^ 9)
-    (h : walkLine (L : Int) i rest = .ok r) :
+theorem walkLine_split (oob : Err) (L i : Nat) (rest r : Bytes) (hi : i + 1 < 10 ^ 9)
+    (h : walkLine oob (L : Int) i rest = .ok r) :
     ∃ ln, rest = ln ++ r ∧ noEOL ln ∧ ln.length = 9 + gl (min (L - i) 60) ∧
-      ∀ r', walkLine (L : Int) i (ln ++ r') = .ok r' := by
+      ∀ oob' r', walkLine oob' (L : Int) i (ln ++ r') = .ok r' := by
   unfold walkLine at h
   simp only at h
   by_cases hp : (index9 (i + 1)).isPrefixOf rest = true
   · rw [if_pos hp] at h
-    obtain ⟨gs, e, hn, hl, hloc⟩ := walkGroups_split L i 6 0 _ r (by omega) h
-    refine ⟨index9 (i + 1) ++ gs, ?_, noEOL_append (index9_noEOL _) hn, ?_, fun r' => ?_⟩
+    obtain ⟨gs, e, hn, hl, hloc⟩ := walkGroups_split oob L i 6 0 _ r (by omega) h
+    refine ⟨index9 (i + 1) ++ gs, ?_, noEOL_append (index9_noEOL _) hn, ?_, fun oob' r' => ?_⟩
     · rw [List.append_assoc, ← e]; exact isPrefixOf_split hp
     · simp only [List.length_append, index9_length (i + 1) hi, hl, Nat.add_zero, Nat.reduceMul]
     · unfold walkLine
       simp only [List.append_assoc, isPrefixOf_append, if_true, List.drop_left]
-      exact hloc r'
+      exact hloc oob' r'
   · rw [if_neg hp] at h; cases h
 
 /-! ### `pars.Line` on a line without CR/LF followed by LF -/
@@ -521,7 +521,7 @@ theorem validateLines_slow (L f i : Nat) (rest : Bytes) (hf : L - i ≤ 60 * f) 
     unfold validateLines at h
     by_cases hc : ((i : Nat) : Int) < (L : Int)
     · rw [if_pos hc] at h
-      generalize hw : walkLine (L : Int) i rest = w at h
+      generalize hw : walkLine .panic (L : Int) i rest = w at h
       match w, hw, h with
       | .error e, _, h => cases h
       | .ok [], _, h => cases h
@@ -532,7 +532,7 @@ theorem validateLines_slow (L f i : Nat) (rest : Bytes) (hf : L - i ≤ 60 * f) 
         · rw [if_neg hs] at h
           have hc10 : c = 10 := by simpa using hs
           subst hc10
-          obtain ⟨ln, e1, hn, hl, hloc⟩ := walkLine_split L i rest _ (by omega) hw
+          obtain ⟨ln, e1, hn, hl, hloc⟩ := walkLine_split .panic L i rest _ (by omega) hw
           obtain ⟨blk, tail, e2, hbl, hv, hslow⟩ := ih (i + 60) r' (by omega) h
           have hpos : 0 < L - i := by omega
           have hstep := tl_step (L - i) hpos
@@ -548,10 +548,11 @@ theorem validateLines_slow (L f i : Nat) (rest : Bytes) (hf : L - i ≤ 60 * f) 
           · unfold slowLines
             rw [if_pos hc, e1, splitLine_lf ln r' hn]
             simp only
-            have := hloc []
+            have := hloc .fail []
             rw [List.append_nil] at this
             rw [this]
-            simp only [List.length_nil, Nat.sub_zero, List.take_length]
+            simp only [allBlank, List.all_nil, Bool.not_true, Bool.false_eq_true, if_false,
+              List.length_nil, Nat.sub_zero, List.take_length]
             have hfit : (acc ++ ln).length < cap := by
               simp only [List.length_append, hl]; omega
             rw [List.take_of_length_le (by omega), if_pos hfit]
@@ -579,12 +580,14 @@ theorem slowLines_valid (L cap f i : Nat) (st acc out rest : Bytes) (hL : L < 10
       generalize hsp : splitLine st = sp at h
       obtain ⟨q, st'⟩ := sp
       simp only at h
-      generalize hw : walkLine (L : Int) i q = w at h
+      generalize hw : walkLine .fail (L : Int) i q = w at h
       match w, hw, h with
       | .error e, _, h => cases h
       | .ok r, hw, h =>
         simp only at h
-        obtain ⟨ln, e1, hn, hl, hloc⟩ := walkLine_split L i q r (by omega) hw
+        split at h
+        · cases h
+        obtain ⟨ln, e1, hn, hl, hloc⟩ := walkLine_split .fail L i q r (by omega) hw
         have hext : q.take (q.length - r.length) = ln := by
           rw [e1]; simp
         rw [hext] at h
@@ -785,13 +788,15 @@ theorem slowLines_crlf (length : Int) (cap f i : Nat) (st acc : Bytes) (h : noCR
       obtain ⟨q, t, e1, e2, hcr⟩ := splitLine_crlf st h
       rw [e1, e2]
       simp only
-      cases hw : walkLine length i q with
+      cases hw : walkLine .fail length i q with
       | error e => rfl
       | ok r =>
         simp only
         split
-        · exact ih (i + 60) t _ hcr
         · rfl
+        · split
+          · exact ih (i + 60) t _ hcr
+          · rfl
     · rw [if_neg hc, if_neg hc]
 
 theorem slowOrigin_crlf (st : Bytes) (length : Int) (h : noCR st) :
@@ -807,4 +812,346 @@ theorem slowOrigin_crlf (st : Bytes) (length : Int) (h : noCR st) :
     cases slowLines length (toOriginLength length).toNat length.toNat 0 st [] with
     | error e => rfl
     | ok v => obtain ⟨a, b⟩ := v; rfl
+
+
+/-! ### the slow path never panics -/
+
+theorem walkChars_fail_ne_panic (length : Int) (ij f k : Nat) (rest : Bytes) :
+    walkChars .fail length ij f k rest ≠ .error .panic := by
+  induction f generalizing k rest with
+  | zero => simp [walkChars]
+  | succ f ih =>
+    unfold walkChars
+    split
+    · match rest with
+      | [] => simp
+      | c :: r =>
+        simp only
+        split
+        · exact ih _ _
+        · simp
+    · simp
+
+theorem walkGroups_fail_ne_panic (length : Int) (i f j : Nat) (rest : Bytes) :
+    walkGroups .fail length i f j rest ≠ .error .panic := by
+  induction f generalizing j rest with
+  | zero => simp [walkGroups]
+  | succ f ih =>
+    unfold walkGroups
+    split
+    · match rest with
+      | [] => simp
+      | c :: r =>
+        simp only
+        split
+        · simp
+        · have := walkChars_fail_ne_panic length (i + j) 10 0 r
+          cases hw : walkChars .fail length (i + j) 10 0 r with
+          | error e => simp only; intro h; apply this; rw [hw]; exact h
+          | ok r' => exact ih _ _
+    · simp
+
+theorem walkLine_fail_ne_panic (length : Int) (i : Nat) (rest : Bytes) :
+    walkLine .fail length i rest ≠ .error .panic := by
+  unfold walkLine
+  simp only
+  split
+  · exact walkGroups_fail_ne_panic _ _ _ _ _
+  · simp
+
+theorem slowLines_ne_panic (L cap f i : Nat) (st acc : Bytes) (hL : L < 10 ^ 9)
+    (hcap : acc.length + tl (L - i) ≤ cap) :
+    slowLines (L : Int) cap f i st acc ≠ .error .panic := by
+  induction f generalizing i st acc with
+  | zero => simp [slowLines]
+  | succ f ih =>
+    unfold slowLines
+    by_cases hc : ((i : Nat) : Int) < (L : Int)
+    · rw [if_pos hc]
+      generalize splitLine st = sp
+      obtain ⟨q, st'⟩ := sp
+      simp only
+      cases hw : walkLine .fail (L : Int) i q with
+      | error e =>
+        simp only; intro h; apply walkLine_fail_ne_panic (L : Int) i q; rw [hw]; cases h; rfl
+      | ok r =>
+        simp only
+        split
+        · simp
+        · obtain ⟨ln, e1, hn, hl, hloc⟩ := walkLine_split .fail L i q r (by omega) hw
+          have hext : q.take (q.length - r.length) = ln := by rw [e1]; simp
+          rw [hext]
+          have hpos : 0 < L - i := by omega
+          have hstep := tl_step (L - i) hpos
+          have hsub : L - i - 60 = L - (i + 60) := by omega
+          rw [hsub] at hstep
+          have hle : (acc ++ ln).length < cap := by
+            simp only [List.length_append, hl]; omega
+          rw [List.take_of_length_le (by omega), if_pos hle]
+          exact ih (i + 60) st' _ (by
+            simp only [List.length_append, List.length_cons, List.length_nil, hl]; omega)
+    · rw [if_neg hc]; simp
+
+theorem slowOrigin_ne_panic (st : Bytes) (L : Nat) (hL : L < 10 ^ 9) :
+    slowOrigin st L ≠ .error .panic := by
+  unfold slowOrigin
+  simp only [toOriginLength_nat, Int.toNat_natCast]
+  rw [if_neg (by omega)]
+  have := slowLines_ne_panic L (tl L) L 0 st [] hL (by simp)
+  cases hs : slowLines (L : Int) (tl L) L 0 st [] with
+  | error e => simp only; intro h; apply this; rw [hs]; exact h
+  | ok v => obtain ⟨a, b⟩ := v; simp
+
+/-! ### trailing blanks -/
+
+/-- scan for a blank that stands directly before a line feed or at the very end of the input
+(`prev`: the previous byte was a blank) -/
+def tb : Bool → Bytes → Bool
+  | prev, [] => prev
+  | prev, c :: r => (prev && c == 10) || tb (c == 32) r
+
+/-- some line of `b` carries blanks behind its last non-blank byte -/
+def trailingBlank (b : Bytes) : Bool := tb false b
+
+theorem tb_mono (prev : Bool) (y : Bytes) (h : tb false y = true) : tb prev y = true := by
+  cases y with
+  | nil => simp [tb] at h
+  | cons c r => simp only [tb, Bool.false_and, Bool.false_or] at h; simp [tb, h]
+
+theorem tb_suffix (prev : Bool) (x y : Bytes) (h : tb false y = true) : tb prev (x ++ y) = true := by
+  induction x generalizing prev with
+  | nil => exact tb_mono prev y h
+  | cons c x ih => simp [tb, ih]
+
+theorem tb_true_blanks_lf (r t : Bytes) (hb : allBlank r = true) : tb true (r ++ 10 :: t) = true := by
+  induction r with
+  | nil => simp [tb]
+  | cons c r ih =>
+    simp only [allBlank, List.all_cons, Bool.and_eq_true, beq_iff_eq] at hb
+    have := ih (by simpa [allBlank] using hb.2)
+    simp [tb, hb.1, this]
+
+theorem tb_blanks_lf (prev : Bool) (r t : Bytes) (hr : r ≠ []) (hb : allBlank r = true) :
+    tb prev (r ++ 10 :: t) = true := by
+  cases r with
+  | nil => exact absurd rfl hr
+  | cons c r =>
+    simp only [allBlank, List.all_cons, Bool.and_eq_true, beq_iff_eq] at hb
+    have := tb_true_blanks_lf r t (by simpa [allBlank] using hb.2)
+    simp [tb, hb.1, this]
+
+theorem tb_true_blanks_eof (r : Bytes) (hb : allBlank r = true) : tb true r = true := by
+  induction r with
+  | nil => simp [tb]
+  | cons c r ih =>
+    simp only [allBlank, List.all_cons, Bool.and_eq_true, beq_iff_eq] at hb
+    have := ih (by simpa [allBlank] using hb.2)
+    simp [tb, hb.1, this]
+
+theorem tb_blanks_eof (prev : Bool) (r : Bytes) (hr : r ≠ []) (hb : allBlank r = true) :
+    tb prev r = true := by
+  cases r with
+  | nil => exact absurd rfl hr
+  | cons c r =>
+    simp only [allBlank, List.all_cons, Bool.and_eq_true, beq_iff_eq] at hb
+    have := tb_true_blanks_eof r (by simpa [allBlank] using hb.2)
+    simp [tb, hb.1, this]
+
+/-! ### slow path accepted, no CR, no trailing blanks, enough input ⇒ fast path accepts -/
+
+theorem splitLine_cases (st : Bytes) (h : noCR st) :
+    (∃ ln t, st = ln ++ 10 :: t ∧ noEOL ln ∧ splitLine st = (ln, t)) ∨
+    (noEOL st ∧ splitLine st = (st, [])) := by
+  rcases span10 st with ⟨ln, t, e, h10⟩ | h10
+  · have hn : noEOL ln := fun c hc => ⟨h10 c hc, h c (by rw [e]; simp [hc])⟩
+    exact Or.inl ⟨ln, t, e, hn, by rw [e, splitLine_lf ln t hn]⟩
+  · have hn : noEOL st := fun c hc => ⟨h10 c hc, h c hc⟩
+    exact Or.inr ⟨hn, splitLine_noEOL st hn⟩
+
+theorem slowLines_fast (L cap f i : Nat) (st acc out rest : Bytes) (hL : L < 10 ^ 9)
+    (hcr : noCR st) (hb : tb false st = false) (hlen : tl (L - i) ≤ st.length)
+    (h : slowLines (L : Int) cap f i st acc = .ok (out, rest)) :
+    validateLines (L : Int) f i st = .ok () := by
+  induction f generalizing i st acc with
+  | zero => rfl
+  | succ f ih =>
+    unfold validateLines
+    unfold slowLines at h
+    by_cases hc : ((i : Nat) : Int) < (L : Int)
+    · rw [if_pos hc] at h ⊢
+      have hpos : 0 < L - i := by omega
+      have hstep := tl_step (L - i) hpos
+      have hsub : L - i - 60 = L - (i + 60) := by omega
+      rw [hsub] at hstep
+      rcases splitLine_cases st hcr with ⟨q, t, est, hnq, hsp⟩ | ⟨hnq, hsp⟩
+      · rw [hsp] at h
+        simp only at h
+        generalize hw : walkLine .fail (L : Int) i q = w at h
+        match w, hw, h with
+        | .error e, _, h => cases h
+        | .ok r, hw, h =>
+          simp only at h
+          split at h
+          · cases h
+          rename_i hbl
+          have hbl : allBlank r = true := by simpa using hbl
+          obtain ⟨ln, e1, hn, hl, hloc⟩ := walkLine_split .fail L i q r (by omega) hw
+          have hr : r = [] := by
+            by_cases hr : r = []
+            · exact hr
+            · exfalso
+              have : tb false st = true := by
+                rw [est, e1, List.append_assoc]
+                exact tb_suffix false ln _ (tb_blanks_lf false r t hr hbl)
+              rw [this] at hb; cases hb
+          subst hr
+          rw [List.append_nil] at e1
+          subst e1
+          simp only [List.length_nil, Nat.sub_zero, List.take_length] at h
+          split at h
+          · rename_i hfit
+            rw [est, hloc .panic (10 :: t)]
+            simp only [bne_self_eq_false, Bool.false_eq_true, if_false]
+            refine ih (i + 60) t _ (fun c hc => hcr c (by rw [est]; simp [hc])) ?_ ?_ h
+            · cases htb : tb false t with
+              | false => rfl
+              | true =>
+                have : tb false st = true := by
+                  rw [est, show q ++ 10 :: t = (q ++ [10]) ++ t by simp]
+                  exact tb_suffix false _ t htb
+                rw [this] at hb; cases hb
+            · rw [est] at hlen
+              simp only [List.length_append, List.length_cons, hl] at hlen
+              omega
+          · cases h
+      · -- the line runs to the end of the input: too short to hold the block
+        rw [hsp] at h
+        simp only at h
+        generalize hw : walkLine .fail (L : Int) i st = w at h
+        match w, hw, h with
+        | .error e, _, h => cases h
+        | .ok r, hw, h =>
+          simp only at h
+          split at h
+          · cases h
+          rename_i hbl
+          have hbl : allBlank r = true := by simpa using hbl
+          obtain ⟨ln, e1, hn, hl, hloc⟩ := walkLine_split .fail L i st r (by omega) hw
+          exfalso
+          by_cases hr : r = []
+          · subst hr
+            rw [List.append_nil] at e1
+            rw [e1, hl] at hlen
+            omega
+          · have : tb false st = true := by
+              rw [e1]; exact tb_suffix false ln _ (tb_blanks_eof false r hr hbl)
+            rw [this] at hb; cases hb
+    · rw [if_neg hc]
+
+theorem slow_imp_fast (b : Bytes) (L : Nat) (o : Bytes × Bytes) (hL : L < 10 ^ 9) (hcr : noCR b)
+    (hb : trailingBlank b = false) (hlen : tl L ≤ b.length)
+    (h : slowOrigin b L = .ok o) : validateOrigin b L = .ok () := by
+  unfold slowOrigin at h
+  simp only [toOriginLength_nat, Int.toNat_natCast] at h
+  rw [if_neg (by omega)] at h
+  unfold validateOrigin
+  simp only [Int.toNat_natCast]
+  cases hs : slowLines (L : Int) (tl L) L 0 b [] with
+  | error e => rw [hs] at h; cases h
+  | ok v =>
+    obtain ⟨a, r⟩ := v
+    exact slowLines_fast L (tl L) L 0 b [] a r hL hcr hb (by simpa using hlen) hs
+
+/-! ### a written block carries no trailing blanks -/
+
+theorem tb_reset (prev : Bool) (c : UInt8) (x : Bytes) (h10 : c ≠ 10) (h32 : c ≠ 32) :
+    tb prev (c :: x) = tb false x := by
+  have e10 : (c == 10) = false := by simpa using h10
+  have e32 : (c == 32) = false := by simpa using h32
+  simp only [tb, e10, e32, Bool.and_false, Bool.false_or]
+
+theorem tb_noLF_end (prev : Bool) (s0 : Bytes) (c : UInt8) (x : Bytes) (hs : ∀ y ∈ s0, y ≠ 10)
+    (h10 : c ≠ 10) (h32 : c ≠ 32) : tb prev (s0 ++ c :: x) = tb false x := by
+  induction s0 generalizing prev with
+  | nil => exact tb_reset prev c x h10 h32
+  | cons y s0 ih =>
+    simp only [List.cons_append, tb]
+    have : (y == 10) = false := by simpa using hs y (by simp)
+    rw [this, Bool.and_false, Bool.false_or]
+    exact ih _ (fun z hz => hs z (by simp [hz]))
+
+theorem tb_base_run (prev : Bool) (g x : Bytes) (hg : g ≠ []) (hp : printable g) :
+    tb prev (g ++ x) = tb false x := by
+  induction g generalizing prev with
+  | nil => exact absurd rfl hg
+  | cons c g ih =>
+    have hc := isBase_noEOL (hp c (by simp))
+    have h32 : c ≠ 32 := by
+      intro e; have := hp c (by simp); rw [e] at this; revert this; decide
+    rw [List.cons_append, tb_reset prev c _ hc.1 h32]
+    cases g with
+    | nil => rfl
+    | cons c' g' => exact ih false (by simp) (fun y hy => hp y (by simp [hy]))
+
+theorem digit_ne : ∀ d, d < 10 → UInt8.ofNat (48 + d) ≠ 10 ∧ UInt8.ofNat (48 + d) ≠ 32 := by decide
+
+theorem digitsAux_succ_split (f n : Nat) :
+    ∃ s0 d, digitsAux (f + 1) n = s0 ++ [UInt8.ofNat (48 + d)] ∧ d < 10 := by
+  rw [digitsAux]
+  split
+  · rename_i h; exact ⟨[], n, rfl, h⟩
+  · exact ⟨_, n % 10, rfl, Nat.mod_lt _ (by omega)⟩
+
+theorem tb_index9 (prev : Bool) (n : Nat) (x : Bytes) : tb prev (index9 n ++ x) = tb false x := by
+  have hno := index9_noEOL n
+  unfold index9 decimal at hno ⊢
+  simp only at hno ⊢
+  obtain ⟨s0, d, e, hd⟩ := digitsAux_succ_split n n
+  rw [e] at hno ⊢
+  have hdn := digit_ne d hd
+  rw [← List.append_assoc, List.append_assoc _ [_] x]
+  simp only [List.singleton_append]
+  exact tb_noLF_end prev _ _ x
+    (fun y hy => (hno y (by rw [← List.append_assoc]; exact List.mem_append.mpr (Or.inl hy))).1)
+    hdn.1 hdn.2
+
+theorem tb_fmtGroupsS (f j : Nat) (r x : Bytes) (hp : printable r) :
+    tb false (fmtGroupsS f j r ++ x) = tb false x := by
+  induction f generalizing j r with
+  | zero => rfl
+  | succ f ih =>
+    unfold fmtGroupsS
+    split
+    · rename_i hc
+      simp only [List.cons_append, List.append_assoc, tb, Bool.false_and, Bool.false_or]
+      rw [show ((32 : UInt8) == 32) = true by decide]
+      rw [tb_base_run true (r.take 10) _ (by
+            intro e; apply hc.2; cases r with
+            | nil => rfl
+            | cons a b => simp at e)
+          (fun y hy => hp y (List.mem_of_mem_take hy))]
+      exact ih _ _ (fun y hy => hp y (List.mem_of_mem_drop hy))
+    · rfl
+
+theorem tb_fmtLinesS (f i : Nat) (r x : Bytes) (hp : printable r) :
+    tb false (fmtLinesS f i r ++ x) = tb false x := by
+  induction f generalizing i r with
+  | zero => rfl
+  | succ f ih =>
+    unfold fmtLinesS
+    split
+    · simp only [List.append_assoc, List.cons_append]
+      rw [tb_index9, tb_fmtGroupsS _ _ _ _ hp]
+      simp only [tb, Bool.false_and, Bool.false_or]
+      rw [show ((10 : UInt8) == 32) = false by decide]
+      exact ih _ _ (fun y hy => hp y (List.mem_of_mem_drop hy))
+    · rfl
+
+/-- every written block of printable residues is free of trailing blanks -/
+theorem originStream_no_trailingBlank (p : Bytes) (hp : printable p) :
+    trailingBlank (originStream p) = false := by
+  rw [originStream_eq_S]
+  have := tb_fmtLinesS p.length 0 p [] hp
+  rw [List.append_nil] at this
+  exact this
 end Gts.Origin
